@@ -265,22 +265,13 @@ deriving DecidableEq, Repr
 	}
 	sb.WriteString("\n/-- the same values as a table -/\ndef all : List Const := " + list(rows) + "\n\n")
 
-	// module orders
+	// module orders: taken from where they are INSTALLED (the SetOrder* calls on the module manager), so that the
+	// functions that build the lists may be named and placed freely
 	app := w.byPath[modPath+"/app"]
-	for _, o := range [][2]string{{"orderBeginBlockers", "beginBlockers"}, {"orderEndBlockers", "endBlockers"}, {"orderInitBlockers", "initGenesis"}} {
-		var l []string
-		pos := ""
-		ok := false
-		if app != nil {
-			l, pos, ok = w.stringList(app, o[0])
-		}
-		if !ok {
-			w.problem("app: function %s() is not a single `return []string{constants...}`", o[0])
-		}
-		sb.WriteString(fmt.Sprintf("/-- app `%s()` at %s -/\ndef %s : List String := %s\ndef %sPos : String := %s\n\n", o[0], pos, o[1], qs(l), o[1], q(pos)))
-	}
-	// where the orders are installed
 	var calls []string
+	lists := map[string][]string{}
+	listPos := map[string]string{}
+	listFn := map[string]string{}
 	if app != nil {
 		for _, f := range app.Syntax {
 			ast.Inspect(f, func(n ast.Node) bool {
@@ -289,18 +280,39 @@ deriving DecidableEq, Repr
 					return true
 				}
 				if obj, _ := callee(app.TypesInfo, call); obj != nil && strings.HasPrefix(obj.Name(), "SetOrder") && !inModule(obj.Pkg()) {
-					var args []string
-					for _, a := range call.Args {
-						args = append(args, exprString(a))
+					arg := "?"
+					if len(call.Args) == 1 && call.Ellipsis.IsValid() {
+						if inner, ok := ast.Unparen(call.Args[0]).(*ast.CallExpr); ok && len(inner.Args) == 0 {
+							if id, ok := ast.Unparen(inner.Fun).(*ast.Ident); ok {
+								if l, pos, ok := w.stringList(app, id.Name); ok {
+									lists[obj.Name()], listPos[obj.Name()], listFn[obj.Name()] = l, pos, id.Name
+									arg = "<list of module names returned by a function of package app>..."
+								}
+							}
+						}
 					}
-					if call.Ellipsis.IsValid() {
-						args[len(args)-1] += "..."
+					if arg == "?" {
+						var args []string
+						for _, a := range call.Args {
+							args = append(args, exprString(a))
+						}
+						if call.Ellipsis.IsValid() && len(args) > 0 {
+							args[len(args)-1] += "..."
+						}
+						arg = "unresolved: " + strings.Join(args, ", ")
 					}
-					calls = append(calls, fmt.Sprintf("(%s, %s, %s)", q(obj.Name()), q(strings.Join(args, ", ")), q(w.pos(call.Pos()))))
+					calls = append(calls, fmt.Sprintf("(%s, %s, %s)", q(obj.Name()), q(arg), q(w.pos(call.Pos()))))
 				}
 				return true
 			})
 		}
+	}
+	for _, o := range [][2]string{{"SetOrderBeginBlockers", "beginBlockers"}, {"SetOrderEndBlockers", "endBlockers"}, {"SetOrderInitGenesis", "initGenesis"}} {
+		l, ok := lists[o[0]]
+		if !ok {
+			w.problem("app: the argument of %s is not `f()...` with f a function of package app that is a single `return []string{constants...}`", o[0])
+		}
+		sb.WriteString(fmt.Sprintf("/-- the list installed by `%s` (app `%s()` at %s) -/\ndef %s : List String := %s\ndef %sPos : String := %s\n\n", o[0], listFn[o[0]], listPos[o[0]], o[1], qs(l), o[1], q(listPos[o[0]])))
 	}
 	sort.Strings(calls)
 	sb.WriteString("/-- calls that install the orders on the module manager: (method, arguments, position) -/\ndef orderCalls : List (String × String × String) := " + list(calls) + "\n\nend Sge.Gen.Consts\n")
